@@ -378,6 +378,15 @@ impl<'a> Interp<'a> {
                     c | g
                 }
             }
+            Expr::PeekNZ(n, m, g) => {
+                let c = self.act(Act::Node(*n, 0))?;
+                let g = self.eval(g, cx)?;
+                if c != 0 {
+                    c | self.act(Act::Node(*m, 0))? | g
+                } else {
+                    g
+                }
+            }
             Expr::Acc(e) => {
                 let v = self.eval(e, cx)?;
                 let tag = self.stack.last().map(|a| act_tag(*a)).unwrap_or(0);
@@ -510,7 +519,7 @@ pub fn call_edges(prog: &Prog, inp: &Inputs) -> Vec<Vec<NodeId>> {
                 walk(a, inp, out);
                 walk(b, inp, out);
             }
-            Expr::PeekZ(n, m, _) => {
+            Expr::PeekZ(n, m, _) | Expr::PeekNZ(n, m, _) => {
                 for x in [n, m] {
                     if !out.contains(x) {
                         out.push(*x)
@@ -615,6 +624,13 @@ fn eval_with(e: &Expr, inp: &Inputs, vals: &[u16]) -> u16 {
         }
         Expr::Bin(op, a, b) => op.apply(eval_with(a, inp, vals), eval_with(b, inp, vals)),
         Expr::PeekZ(n, _, g) => vals[*n] | eval_with(g, inp, vals),
+        Expr::PeekNZ(n, m, g) => {
+            if vals[*n] != 0 {
+                vals[*n] | vals[*m] | eval_with(g, inp, vals)
+            } else {
+                eval_with(g, inp, vals)
+            }
+        }
         _ => 0,
     }
 }
